@@ -11,6 +11,7 @@
 //!        (linear-time conformance check of the image + count / name hash / body hash of the parsed map).
 //! Implementation lines
 //!   build: `ok <img-hex> <n> (<name> <body>)*` | `ok <img-hex> err` | `err` | `panic`
+//!          | `skip lossy` (a name contains U+00A5 / U+203E / U+2212: encodable but not faithfully; not compared)
 //!   bigbuild: `ok <img-hex> <n> <fnv64 of names in order> <fnv64 of bodies in order>` | `ok <img-hex> err` | `err` | `panic`
 //!   parse: `ok <n> (<name> <body>)*` | `ok ?` (some name outside the sub-codec alphabet) | `err` | `panic`
 //! Error classes are not distinguished (the property does not name any).
@@ -373,6 +374,53 @@ pub fn gen(seed: u64, tier: &str) -> Vec<String> {
         }
     }
 
+    // 2a. names OUTSIDE the codec's domain among in-domain names: an unencodable character (no
+    //     Shift-JIS representation at all) as the last / first / middle / only character of one name.
+    //     `serialize` must refuse (model: enc = none => err); whatever it accepts must round-trip
+    //     with the INPUT names (oracle). A few maps contain one of the three lossy code points
+    //     U+00A5 / U+203E / U+2212 (encodable, but not faithfully): outside the quantifier, skipped.
+    let outside = if thorough { 600 } else { 48 };
+    for j in 0..outside {
+        let k = rng.range(1, 8) as usize;
+        let mut files = random_files(&mut rng, k);
+        let bad = *rng.pick(&['\u{E9}', '\u{2713}', '\u{1F600}', '\u{FC}', '\u{100}']);
+        let victim = rng.below(k as u64) as usize;
+        let stem: Vec<char> = files[victim].0.chars().collect();
+        let name: String = match j % 4 {
+            0 => stem.iter().chain([bad].iter()).collect(),                 // last
+            1 => [bad].iter().chain(stem.iter()).collect(),                 // first
+            2 => {
+                let cut = stem.len() / 2;
+                let mut v: Vec<char> = stem[..cut].to_vec();
+                v.push(bad);
+                v.extend(&stem[cut..]);
+                if stem.is_empty() {
+                    v = vec!['a', bad, 'b'];
+                }
+                v.into_iter().collect()                                        // middle
+            }
+            _ => bad.to_string(),                                             // the only character
+        };
+        files[victim].0 = name;
+        // now and then a second unencodable name in the map
+        if k >= 2 && rng.chance(1, 8) {
+            let other = (victim + 1) % k;
+            files[other].0.push('\u{E9}');
+        }
+        push(&mut lines, format!("build {}", fmt_files(&files)));
+    }
+    for lossy in ['\u{A5}', '\u{203E}', '\u{2212}'] {
+        for pos in 0..2 {
+            let mut files = random_files(&mut rng, 3);
+            if pos == 0 {
+                files[1].0.push(lossy);
+            } else {
+                files[1].0.insert(0, lossy);
+            }
+            push(&mut lines, format!("build {}", fmt_files(&files)));
+        }
+    }
+
     // 2b. large maps regenerated from parameters: the model is tied at 257 and 1024 (thorough: 4096) files; the top of
     //     the domain (count needs the sign bit / all bits of the 16-bit field) is judged by the
     //     specification only
@@ -525,6 +573,11 @@ pub fn run_line(_st: &mut super::State, line: &str) -> String {
     let out = match f[1] {
         "build" => {
             let files = parse_files(&f[2..]);
+            // lossy-but-encodable code points: outside the property's quantifier, and the model's
+            // sub-codec cannot predict their bytes
+            if files.iter().any(|(k, _)| k.chars().any(|c| matches!(c, '\u{A5}' | '\u{203E}' | '\u{2212}'))) {
+                return format!("{} skip lossy", id);
+            }
             let mut m: IndexMap<String, Vec<u8>> = IndexMap::new();
             for (k, v) in files {
                 m.insert(k, v);
